@@ -485,11 +485,11 @@ def _ctl_case(draw, tier):
   maxlen = 10 if tier == "quick" else 14
   conns = [{"hs": draw(st.booleans()), "script": draw(_script(maxlen))} for _ in range(nc)]
   allmask = (1 << nc) - 1
-  exc = draw(st.integers(0, 19)) == 0
+  exc = draw(st.integers(0, 7)) == 0
   nsend = draw(st.integers(1, MAX_MSGS))
   go = st.builds(lambda w, e: ["go", w, e],
                  st.sampled_from([allmask] * 4 + list(range(allmask + 1))),
-                 st.sampled_from([0] * 6 + list(range(allmask + 1))) if exc else st.just(0))
+                 st.sampled_from([0] * 3 + list(range(allmask + 1))) if exc else st.just(0))
   other = st.one_of(go, go, go, st.just(["visit"]))
   ops = list(draw(st.lists(other, max_size=2)))
   for _ in range(nsend):
@@ -512,7 +512,7 @@ def _sw_case(draw, tier):
     fast = fastmode == 1 or (fastmode == 2 and draw(st.booleans()))
     ops.append(["send", draw(st.integers(0, nw - 1)), draw(_SIZES), int(fast)])
     ops.extend(draw(st.lists(loop, max_size=4)))
-  tail = draw(st.integers(0, 5))
+  tail = draw(st.integers(0, 3))
   if tail == 0:
     ops.append(["shutdown", draw(st.integers(0, nw - 1))])
   elif tail == 1:
@@ -529,6 +529,6 @@ def plan(tier):
   return [
     Enum("ctl-grid", lambda: _enum_ctl(tier), shards=16),
     Enum("sw-grid", lambda: _enum_sw(tier), shards=16),
-    Hyp("ctl-scripts", lambda: _ctl_case(tier), examples=4000 if q else 160000, shards=16),
-    Hyp("sw-scripts", lambda: _sw_case(tier), examples=4000 if q else 160000, shards=16),
+    Hyp("ctl-scripts", lambda: _ctl_case(tier), examples=4000 if q else 300000, shards=16),
+    Hyp("sw-scripts", lambda: _sw_case(tier), examples=4000 if q else 300000, shards=16),
   ]
